@@ -32,7 +32,7 @@ func (l *httpFileSystemLoader) Exists(name string) bool {
 		return false
 	}
 	defer f.Close()
-	// a directory is not a template
+	// a template is a regular file: not a directory, socket, pipe or device
 	stat, err := f.Stat()
-	return err == nil && !stat.IsDir()
+	return err == nil && stat.Mode().IsRegular()
 }
